@@ -81,6 +81,11 @@ func (s *Streamer) Stream(ctx context.Context, sendTransaction SendTransactionFu
 	s.errChan = conn.errChan
 	pos, err = s.parseEvents(ctx, events)
 	s.SetBinlogPosition(pos)
+	if ctx.Err() == nil {
+		// The stream did not end because of the caller, so a cancel issued
+		// after this point must not hide the reason from Error().
+		s.ctx = context.Background()
+	}
 	if err != nil {
 		return err.msgf("parseEvents fail in pos: %+v", err)
 	}
